@@ -28,7 +28,9 @@ var c11Roots = []string{"/", "/a", "/a/", "/a/b", "/a/{x}", "/a/{x}/c", "/a/{x}/
 // roots whose ServeMux patterns are pairwise distinct and not nested in each other's "/"-variants
 var c11SafeRoots = []string{"/", "/a", "/b/{z}", "/c/d", "/d", "/e/{v}/f"}
 
-var c11RoutePaths = []string{"", "/x", "/{id}", "/x/{id}", "/y"}
+// "/a/x" below root "/a" is the route /a/a/x, whose path relative to the root reads like the
+// full path of the route "/x": RemoveRoute takes full paths
+var c11RoutePaths = []string{"", "/x", "/{id}", "/x/{id}", "/y", "/a/x"}
 
 type c11Route struct {
 	ID     string `json:"id"`
